@@ -26,9 +26,69 @@ def run(prog: Program, rep: Report, tier: str):
     # markers once and for all (the frozen leaf becomes an ordinary trainable array of the stored copy)
     from .c11 import rule_reparam
     rule_reparam(prog, rep, R="C12.nested")
+    rule_ctor_keeps_wrappers(prog, rep)
     if tier == "thorough":
         from ..audit import audit_generic
         audit_generic(prog, rep, "C12")
+
+
+def rule_ctor_keeps_wrappers(prog, rep, R="C12.kept"):
+    """A combinator stores the members it is given: if its constructor stores unwrap(member) instead, a NonTrainable
+    (or any other wrapper) around the member is consumed at construction - its leaves are ordinary trainable arrays of
+    the stored copy, and a reparameterisation inside it is frozen at its construction-time value."""
+    from .bij import bijection_classes
+    from ..taint import ann_is_static
+    rep.rule(R, "no bijection / distribution constructor stores unwrap(argument) in a non-static field (unwrap may be used "
+                "to read shapes): wrappers passed in are kept, so frozen members stay frozen", minimum=20)
+    classes = bijection_classes(prog) + [k for k in prog.subclasses(DIST)]
+    seen = set()
+    for c in classes:
+        if c.qualname in seen:
+            continue
+        seen.add(c.qualname)
+        r = prog.find_method(c, "__init__")
+        if r is None or r[0].qualname != c.qualname:
+            continue
+        fn = r[1]
+        if not any(isinstance(n, ast.Call) and ast.unparse(n.func).rsplit(".", 1)[-1] == "unwrap" for n in ast.walk(fn)):
+            rep.holds(R, method_site(prog, c, "__init__"), f"{c.qualname}.__init__:keeps-wrappers",
+                      "the constructor does not call unwrap", nontrivial=False)
+            continue
+        a = fn.args
+        params = [p.arg for p in (a.posonlyargs + a.args)[1:]] + [p.arg for p in a.kwonlyargs]
+        pos = [("sym", p.arg.upper()) for p in (a.posonlyargs + a.args)[1:]]
+        kw = {p.arg: ("sym", p.arg.upper()) for p in a.kwonlyargs}
+        try:
+            fields = Interp(prog).eval_init(c, pos, kw)
+        except Exception as e:  # noqa: BLE001
+            rep.undecided(R, method_site(prog, c, "__init__"), f"{c.qualname}.__init__", str(e))
+            continue
+        site = method_site(prog, c, "__init__")
+        for fname, t in sorted(fields.items()):
+            fi = prog.find_field(c, fname)
+            if fi is not None and ann_is_static(fi[1].ann_src) is True:
+                continue  # shapes / axes computed from the unwrapped member
+            bad = _unwrap_reaches_value(t)
+            k = f"{c.qualname}.__init__:{fname}-keeps-wrappers"
+            rep.check(not bad, R, site, k, "stores its arguments as given (unwrap only read for shapes)",
+                      f"field {fname} stores {show(t, 200)}: the value contains unwrap(...) of a constructor argument, so a "
+                      f"NonTrainable / reparameterising wrapper around that argument is resolved once at construction and "
+                      f"lost (its leaves become trainable, stop_gradient and the partitions' is_leaf no longer apply)")
+
+
+def _unwrap_reaches_value(t):
+    """Does an unwrap(...) call occur in t other than below a static attribute read (.shape / .cond_shape / .ndim)?"""
+    def visit(s, under_static):
+        if not isinstance(s, tuple) or not s or not isinstance(s[0], str):
+            if isinstance(s, tuple):
+                return any(visit(x, under_static) for x in s)
+            return False
+        if s[0] == "call" and s[1] == UNWRAP and not under_static:
+            return True
+        if s[0] == "attr" and s[2] in ("shape", "cond_shape", "ndim"):
+            return visit(s[1], True)
+        return any(visit(x, under_static) for x in s[1:])
+    return visit(t, False)
 
 
 def rule_entry(prog, rep):
@@ -196,7 +256,7 @@ RECURSIVE_REF = (
 
 NONTRAINABLE_REF = (
     "def unwrap(self):\n"
-    "    differentiable, static = eqx.partition(self.tree, eqx.is_array_like)\n"
+    "    differentiable, static = eqx.partition(self.tree, eqx.is_inexact_array)\n"
     "    return eqx.combine(lax.stop_gradient(differentiable), static)\n")
 
 NON_TRAINABLE_FN_REF = (
@@ -288,7 +348,11 @@ def rule_freeze(prog, rep):
     c = prog.cls(W + "NonTrainable")
     got = Interp(prog).eval_method(c, "unwrap", [])
     want = eval_ref_method(prog, c, NONTRAINABLE_REF, [])
-    compare(rep, "C12.freeze", method_site(prog, c, "unwrap"), "NonTrainable.unwrap", got, want, "unwrap")
+    # zero gradient needs every leaf that can carry one (inexact arrays) to pass through stop_gradient; which other
+    # leaves are also selected does not matter for this property (for jit it does: C14.unwrap-static)
+    alts = tuple(eval_ref_method(prog, c, NONTRAINABLE_REF.replace("eqx.is_inexact_array", f), [])
+                 for f in ("eqx.is_array", "eqx.is_array_like", "eqx.is_inexact_array_like"))
+    compare(rep, "C12.freeze", method_site(prog, c, "unwrap"), "NonTrainable.unwrap", got, want, "unwrap", alternatives=alts)
     m, fn = prog.func(W + "non_trainable")
     T = ("sym", "TREE")
     got = Interp(prog).eval_function(W + "non_trainable", [T])
